@@ -46,6 +46,22 @@ def _unknown_sets(m: S.SearchModel, guard: Formula, variables: list[str]) -> lis
     return out
 
 
+def unresolved_subtree_sets(m: S.SearchModel, guard: Formula, variables: list[str]) -> list[str]:
+    """Node sets the guard tests one of the variables against that are computed from sub-tree lookups in a way the model did not
+    resolve into the subject's / the objects' sets: what the test says about those sets is unknown - not known to be nothing."""
+    known = _known_sets(m)
+    out: list[str] = []
+    for a in sorted(atoms_of(guard)):
+        for v in variables:
+            if a.startswith(f"{v} in "):
+                x = a[len(v) + 4:]
+                if x in known or x in out or not x.isidentifier():
+                    continue
+                if "subtree" in S.provenance(m, ast.Name(id=x, ctx=ast.Load())):
+                    out.append(x)
+    return out
+
+
 def run_search(repo: Repo, res: Result) -> None:
     ms = S.models(repo)
     n = 0
@@ -231,6 +247,10 @@ def run_search(repo: Repo, res: Result) -> None:
             for e in rec:
                 n += 1
                 ok = any(implies(e.guard, f_not(atom(f"{e.nvar} in {x}"))) for x in exc) and any(implies(e.guard, f_not(atom(f"{e.nvar} in {o}"))) for o in own)
+                unresolved = [] if ok else unresolved_subtree_sets(m, e.guard, [e.nvar])
+                if unresolved:
+                    res.undecide("C01.S", repo.key(fi, stmt_of(e.call)) + " [something else]", f"the pair is recorded under `{e.guard_text}`: `{unresolved[0]}` is computed from sub-tree lookups in a way the model cannot relate to the subject's sub-tree `{own[0]}` / the objects `{exc[0]}`", where(fi, e.call))
+                    continue
                 res.add(
                     "C01.S",
                     repo.key(fi, stmt_of(e.call)) + " [something else]",
@@ -451,6 +471,10 @@ def run_closure(repo: Repo, res: Result, rule_id: str = "C03.R1") -> int:
             n += 1
             goal = f_or([atom(f"{e.what} in {s}") for s in own + exc])
             ok = implies(e.guard, goal)
+            unresolved = [] if ok else unresolved_subtree_sets(m, e.guard, [e.what])
+            if unresolved:
+                res.undecide(rule_id, repo.key(fi, stmt_of(e.call)) + " [push stays inside subject or excluded objects]", f"`{e.what}` is pushed under `{e.guard_text}`: `{unresolved[0]}` is computed from sub-tree lookups in a way the model cannot relate to `{own[0]}` / `{exc[0]}`", where(fi, e.call))
+                continue
             res.add(
                 rule_id,
                 repo.key(fi, stmt_of(e.call)) + " [push stays inside subject or excluded objects]",
@@ -466,6 +490,10 @@ def run_closure(repo: Repo, res: Result, rule_id: str = "C03.R1") -> int:
         n += 1
         if pushes:
             ok = all(any(implies(m.guard_of(c), f_not(atom(f"{m.popped} in {x}"))) for x in exc) for c in (m.neighbour_calls or [m.neighbour_call]))
+            unresolved = [] if ok else [x for c in (m.neighbour_calls or [m.neighbour_call]) for x in unresolved_subtree_sets(m, m.guard_of(c), [m.popped])]
+            if unresolved:
+                res.undecide(rule_id, f"{fi.relpath}::{shown}::excluded nodes are not expanded", f"the expansion of `{m.popped}` is guarded by a test of `{unresolved[0]}`, which is computed from sub-tree lookups in a way the model cannot relate to `{exc[0]}`", where(fi, m.neighbour_call))
+                continue
             res.add(rule_id, f"{fi.relpath}::{shown}::excluded nodes are not expanded", ok, "popped nodes in the excluded set are skipped" if ok else f"a popped node in `{exc[0]}` is expanded: imports of the rule's objects are reported as the subject's", where(fi, m.neighbour_call), kind="dominance")
         else:
             res.add(rule_id, f"{fi.relpath}::{shown}::no push", True, "the search never extends its worklist beyond the subject's subtree", where(fi, fi.node), nontrivial=False)
